@@ -203,6 +203,68 @@ def _projects(x, name, of):
     return False
 
 
+def check_reserved_call_names(ctx, prog, tag):
+    """W9 (after seed C18-8): a function name the tracker does not report in call position (`super()`: "the engine
+    resolves it itself") must be recognised by the interpreter *before* it asks the context: in the CallFunction handler
+    every `state.lookup(name)` lies on the not-equal side of the test of the instruction's name against that constant.
+    The reserved names are read from the tracker (string constants it compares call names with)."""
+    reserved = set()
+    for f in prog.fns.values():
+        if f.crate != "minijinja" or not f.loc.f.endswith("compiler/meta.rs"):
+            continue
+        for c in f.calls():
+            if "PartialEq" in c.name and c.name.endswith("::eq") and len(c.args) == 2:
+                for a in c.args:
+                    for o in flow.origins(f, a):
+                        if o.kind == "const":
+                            s_ = flow.const_str({"c": o.const}, f)
+                            if s_:
+                                reserved.add(s_)
+    ev = prog.fns.get("minijinja::vm::Executor::eval_impl")
+    if ev is None or not reserved:
+        return 0
+    from .. import inline
+    ev = inline.view(prog, ev, keep=("lookup", "perform_super", "get_call_args", "call", "eq"))
+    INSTR = "minijinja::compiler::instructions::Instruction"
+    sw = arms.enum_switches(prog, ev, INSTR)
+    if not sw:
+        return 0
+    regs = arms.arm_regions(prog, ev, sw[0][0], INSTR)
+    entry = arms.variant_targets(prog, ev, sw[0][0], INSTR).get("CallFunction")
+    reg = regs.get("CallFunction", set())
+    looks = [c for c in arms.calls_in(ev, reg) if c.name.endswith("State::lookup") and len(c.args) > 1 and any(
+        "as CallFunction" in o.proj for o in flow.origins(ev, c.args[1]))]
+    n = 0
+    for name in sorted(reserved):
+        tests = []
+        for c in arms.calls_in(ev, reg):
+            if "PartialEq" in c.name and c.name.endswith("::eq") and len(c.args) == 2:
+                consts = [flow.const_str({"c": o.const}, ev) for a in c.args for o in flow.origins(ev, a) if o.kind == "const"]
+                if name in consts:
+                    tests.append(c)
+        if not tests and not any(name == flow.const_str({"c": o.const}, ev) for c in ev.calls() for a in c.args
+                                 for o in flow.origins(ev, a) if o.kind == "const"):
+            continue      # the interpreter never mentions it (handled entirely at compile time)
+        n += 1
+        removed = set()
+        for t in tests:
+            for sb in sorted(ev.reachable):
+                if ev.term(sb)["k"] != "switch":
+                    continue
+                cd = flow.cond_of(ev, sb)
+                if cd.kind == "call" and cd.call.bb == t.bb:
+                    # take the not-equal side away: a lookup that is still reachable is made for the reserved name too
+                    removed |= cfg.bool_edges(ev, sb, cd.neg)
+        reach = cfg.reach_from(ev, entry, removed_edges=removed) if entry is not None else set(ev.reachable)
+        bad = [c for c in looks if c.bb in reach or not tests]
+        ctx.ob("C18.W9.reserved-call-name-is-recognised-before-the-lookup", "%seval_impl|CallFunction|%s" % (tag, name), not bad,
+               "the CallFunction handler asks the context for the called name before (or without) testing it against `%s`, "
+               "which undeclared_variables() never reports in call position: the render looks the key `%s` up (and calls "
+               "what it finds) although the static report omits it" % (name, name), ev.where(bad[0].bb) if bad else ev.loc)
+    return n
+
+
+
 def check_loop_variable_resolution(ctx, prog, tag):
     """W8 (after seed C18-7): the tracker binds `loop` for the body of every `for` - and for the filter of a filtered
     `for` it leaves it to the *enclosing* loop (the filter pre-pass is a loop without a loop variable).  The engine
@@ -343,6 +405,10 @@ def run(ctx):
         # ---- W8
         n8 = check_loop_variable_resolution(ctx, prog, tag)
         ctx.floor("C18.W8 places where the name lookup hands out a loop object" + tag, n8, 1)
+        # ---- W9
+        n9 = check_reserved_call_names(ctx, prog, tag)
+        if prog.has_fn("minijinja::vm::Executor::perform_super"):
+            ctx.floor("C18.W9 reserved call names the interpreter handles" + tag, n9, 1)
         # ---- W6
         n6 = check_scope_mirroring(ctx, prog, tag, "C18.W6.tracker-scope-ends-where-the-engine's-frame-ends", ce, me)
         ctx.floor("C18.W6 frame ends between two evaluated parts of a node" + tag, n6, 1)
